@@ -796,7 +796,7 @@ MODELS2 = [
     (P(r' as Iterator>::partition::<'), m_partition),
     (P(r'^Vec::<.*>::drain::<'), m_vec_drain),
     (P(r'^Vec::<.*>::remove$'), m_vec_remove),
-    (P(r'^core::slice::<impl \[.*(HashSet|NodeIndex).*\]>::contains$'), m_slice_contains_deep),
+    (P(r'^core::slice::<impl \[.*(HashSet|NodeIndex).*\]>::contains$|^core::slice::<impl \[\(.*\)\]>::contains$'), m_slice_contains_deep),
     (P(r'^StableGraph::<.*>::node_indices$'), m_node_indices),
     (P(r'^StableGraph::<.*>::neighbors_directed$'), m_graph_neighbors_directed),
     (P(r'^StableGraph::<.*>::node_count$'), m_graph_node_count),
@@ -1179,6 +1179,36 @@ def m_iter_min_max(ex, st, fr, callee, a, depth):
     return outs
 
 
+def m_fn_trait_call(ex, st, fr, callee, a, depth):
+    """<F as Fn / FnMut / FnOnce<Args>>::call(_mut / _once)(f, (args..)): the closure or fn item value f applied to the unpacked argument tuple"""
+    f = a[0]
+    while isinstance(f, RefV) and isinstance(st.heap.get(f.addr), RefV):
+        f = st.load(f)
+    if f is None or (isinstance(f, RefV) and st.heap.get(f.addr) is None):
+        # a capture-less closure kept in a local is a zero-sized value: the callee text names it
+        m_ = re.match(r'^<(\{closure@[^}]*\}) as Fn', callee)
+        if not m_:
+            raise Inconclusive('Fn::call on an unknown callable (%s)' % callee)
+        f = ClosV(ex.closure_name(m_.group(1)), TupV(()))
+    args = a[1] if len(a) > 1 else TupV(())
+    if isinstance(args, RefV):
+        args = st.load(args)
+    if not isinstance(args, TupV):
+        raise Inconclusive('Fn::call with argument pack %r' % (args,))
+    return ex.call_value(st, f, list(args.fields), depth)
+
+
+def m_opt_is_some_and(ex, st, fr, callee, a, depth):
+    """Option::is_some_and(f) / is_none_or(f)"""
+    o = a[0]
+    if not (isinstance(o, EnumV) and o.enum == 'Option'):
+        raise Inconclusive('is_some_and on %r' % (o,))
+    none_result = callee.startswith('Option') and '::is_none_or::' in callee
+    if o.variant == 'None':
+        return z3.BoolVal(none_result)
+    return ex.call_value(st, a[1], [o.fields[0]], depth)
+
+
 def m_ord_cmp_generic(ex, st, fr, callee, a, depth):
     """<Vec<T> / bool / plain struct as Ord>::cmp: lexicographic, false < true, field by field"""
     return [(s, ordering(c)) for s, c in ord_cmp_value(ex, st, a[0], a[1], depth)]
@@ -1200,6 +1230,8 @@ MODELS2 = [
     (P(r'^BTreeSet::<(?!char>).*>::iter$|^<&BTreeSet<(?!char>).*> as IntoIterator>::into_iter$'), m_btreeset_iter_sorted),
     (P(r'^<(Vec<.*>|bool) as (Partial)?Ord>::cmp$'), m_ord_cmp_generic),
     (P(r' as Iterator>::(min|max)$'), m_iter_min_max),
+    (P(r'^<.* as Fn(Mut|Once)?<\(.*\)>>::call(_mut|_once)?$'), m_fn_trait_call),
+    (P(r'^Option::<.*>::(is_some_and|is_none_or)::<'), m_opt_is_some_and),
     (P(r'^CharRange::all$'), m_charrange_all),
     (P(r'^CharRange::iter$'), m_charrange_iter),
     (P(r'^<CharIter as Iterator>::position::<'), m_chariter_position),
